@@ -1069,6 +1069,13 @@ class Executor:
         return self.call(fn, args, kwargs, path, node)
 
     def call(self, fn, args, kwargs, path, node):
+        try:
+            return self._call(fn, args, kwargs, path, node)
+        except (AttributeError, TypeError, KeyError, IndexError) as e:
+            # a library / spec model met a value of a shape it does not describe: outside the subset, never a crash
+            raise Unsupported(f"model of {fn!r} is not applicable to these arguments ({type(e).__name__}: {e})")
+
+    def _call(self, fn, args, kwargs, path, node):
         ctx = self.ctx
         if callable(fn) and not isinstance(fn, (NameRef, BoundMethod)):
             return fn(self, path, args, kwargs, node)
@@ -1481,12 +1488,85 @@ class Executor:
             return paths + done
         inv = self.contract.invariants.get(ordinal)
         if inv is None:
+            summ = self.loop_summary(s, path, it)
+            if summ is not None:
+                return summ
             inv = self.auto_invariant(s, path, it, ordinal)
         if inv is None:
             raise Unsupported(f"loop #{ordinal} (line {s.lineno}) over a symbolic iterable has no invariant in the contract")
         return self.loop_with_invariant(s, path, it, inv, ordinal)
 
     def auto_invariant(self, s, path, it, ordinal):
+        return None
+
+    def loop_summary(self, s, path, it):
+        """Exact summaries of two loop shapes that need no invariant (each iteration touches only its own element):
+             for i in range(len(X)): X[i] = E(X[i], i, <loop-invariant names>)          (in-place map)
+             for x in SEQ: Y.append(E(x, <loop-invariant names>))   with Y == [] before   (map into a new list)
+        Returns the list of resulting paths or None when the loop is not of that shape."""
+        if s.orelse or len(s.body) != 1:
+            return None
+        st = s.body[0]
+        assigned = assigned_names(s.body)
+        # ---- in-place map
+        if (isinstance(st, ast.Assign) and len(st.targets) == 1 and isinstance(st.targets[0], ast.Subscript)
+                and isinstance(st.targets[0].value, ast.Name) and isinstance(st.targets[0].slice, ast.Name)
+                and isinstance(s.target, ast.Name) and st.targets[0].slice.id == s.target.id
+                and isinstance(it, Obj) and it.cls == "range"):
+            X = st.targets[0].value.id
+            seq = path.env.get(X)
+            if not isinstance(seq, SymSeq) or assigned - {X, s.target.id}:
+                return None
+            lo, hi = it.fields["lo"], it.fields["hi"]
+            same_len = (not is_z3(hi) and not is_z3(seq.length) and hi == seq.length) or (is_z3(hi) and is_z3(seq.length) and hi.eq(seq.length))
+            if not (isinstance(lo, int) and lo == 0 and same_len):
+                return None
+            # every other use of X inside E must be X[i]
+            for n_ in ast.walk(st.value):
+                if isinstance(n_, ast.Name) and n_.id == X:
+                    par = getattr(n_, "_parent_sub", None)
+            uses = [n_ for n_ in ast.walk(st.value) if isinstance(n_, ast.Name) and n_.id == X]
+            subs = [n_ for n_ in ast.walk(st.value) if isinstance(n_, ast.Subscript) and isinstance(n_.value, ast.Name)
+                    and n_.value.id == X and isinstance(n_.slice, ast.Name) and n_.slice.id == s.target.id]
+            if len(uses) != len(subs):
+                return None
+            base_env = dict(path.env)
+            ex = self
+
+            def elem(k, base_env=base_env, st=st, tgt=s.target.id, path=path):
+                p2 = path.child()
+                p2.env = dict(base_env)
+                p2.env[tgt] = k
+                return ex.ev(st.value, p2)
+            path.env[X] = SymSeq(seq.length, elem, seq.kind)
+            path.env[s.target.id] = fresh_int(s.target.id)
+            return [path]
+        # ---- append-map
+        if (isinstance(st, ast.Expr) and isinstance(st.value, ast.Call) and isinstance(st.value.func, ast.Attribute)
+                and st.value.func.attr == "append" and isinstance(st.value.func.value, ast.Name) and len(st.value.args) == 1):
+            Y = st.value.func.value.id
+            cur = path.env.get(Y)
+            if not (isinstance(cur, PyList) and cur.tail is None and not cur.items) or assigned - {Y} - assigned_names([ast.Assign(targets=[s.target], value=ast.Constant(0))]):
+                return None
+            if any(isinstance(n_, ast.Name) and n_.id == Y for n_ in ast.walk(st.value.args[0])):
+                return None
+            try:
+                lo, hi, elem_of = self.loop_iter_model(it)
+            except Unsupported:
+                return None
+            if not (isinstance(lo, int) and lo == 0):
+                return None
+            base_env = dict(path.env)
+            ex = self
+            arg = st.value.args[0]
+
+            def elem(k, base_env=base_env, arg=arg, path=path, elem_of=elem_of, target=s.target):
+                p2 = path.child()
+                p2.env = dict(base_env)
+                ex.assign(target, elem_of(k), p2)
+                return ex.ev(arg, p2)
+            path.env[Y] = SymSeq(hi, elem, "list")
+            return [path]
         return None
 
     def loop_iter_model(self, it):
